@@ -30,6 +30,9 @@ def run(c):
         "observed and passed as the `tie` argument; the model uses it only between equal names",
         "file system and xxh3 chunk checksums are trusted: a truncated file is a prefix, a complete chunk is read back intact "
         "(bit flips are C21's subject)",
+        "transport and compactJournalEvent are modelled as FUNCTIONS of the event (a table): the harness calls the real functions "
+        "7 times per generated content and reports compaction-not-deterministic / transport-not-deterministic if two results differ, "
+        "and stored-content-unpredicted if a journal ever holds an event outside the closure computed by those functions",
         "names in generated histories are ASCII (Go compares bytes, the model compares code points)",
         "one model step = one call (applyUpdate / diff / Save / Load) — the mutexes of JournalFast and MetricsStorage are trusted",
     ]
@@ -42,8 +45,9 @@ def run(c):
     c.prove("SH.Props.C20", extra_files=["SH/Model/Journal.lean", "SH/Model/MetaIndex.lean", "SH/Gen/C20.lean"])
     drv = c.driver(DRIVER)
     if binary and drv:
-        # the minimal histories of the defect class first (4 deterministic cases), then the generated ones
-        rc, out = c.go_run(binary, ["-n=4", "-mode=witness"])
+        # the minimal histories first (4 of the name-reuse defect, 1 with draft tags through two compact siblings),
+        # then the generated ones
+        rc, out = c.go_run(binary, ["-n=5", "-mode=witness"])
         c.harness_ok(rc, out, "verif-c20 -mode=witness")
         c.correspond(out, drv, label="witness")
         rc, out = c.go_run(binary, [f"-n={c.n(300, 4000)}"], timeout=1500)
@@ -85,7 +89,10 @@ META = {
              "tied to the code by replaying each generated history op by op on real JournalFast/MetricsStorage objects and on the "
              "compiled Lean model and diffing versions, hashes, journal order and all index maps; the hypotheses of (1) about the "
              "observed transport/compaction functions (they keep type and id, discard per entity, positive sizes) are checked on the "
-             "real code for every generated content (oracle table-assumption-violated)."),
+             "real code for every generated content (oracle table-assumption-violated), and so is the assumption that transport and "
+             "compaction are functions of the event (oracles compaction-not-deterministic, transport-not-deterministic, "
+             "stored-content-unpredicted; metrics with 2-8 tags_draft entries and two compact aggregators of one source are generated "
+             "for that purpose)."),
     "note": ("Trusted: Lean kernel; correspondence on generated histories (quick 300, thorough 4000 cases of 20-70 ops); contents, hashes, "
              "compaction and transport results are inputs observed on the real code. Partial: `converges` is per hop and needs an "
              "upstream that is never rolled back — complete for source -> aggregator; for aggregator -> agent it holds while the "
